@@ -14,6 +14,7 @@ EXPLANATION = (
     "records a deletion exactly for keys of `from` that `to` lacks and an update for every item of `to`.  Not decided: the "
     "equality apply(A, create(A, B)) = B as such, nor agreement with the DDNet reference (value level / cross-language)."
 )
+EXPLANATION += ('  Round 4: R4 -- no function of Delta removes single entries from updated_items (the update set only grows while a delta is built; an `unchanged item` optimisation that drops all-zero updates also drops new items whose data is zero).')
 ASSUMPTIONS = ["BTreeMap/BTreeSet iterate in key order"]
 
 S = "libtw2_snapshot::snap::"
